@@ -108,6 +108,10 @@ fn main() {
             eprintln!("the witness names no scenario index: re-running the whole check with its seed {seed}");
         }
     }
+    #[cfg(feature = "full")]
+    if capture::trace_to_stderr() {
+        capture::install();
+    }
     let scale: f64 = std::env::var("VERIF_SCALE").ok().and_then(|s| s.parse().ok()).unwrap_or(1.0);
     let ctx = Ctx { prop: prop.clone(), tier, seed, threads, verif_dir, replay, started: Instant::now(), scale };
     #[cfg(feature = "full")]
